@@ -98,7 +98,17 @@ func cmdVerify(args []string) {
 			if ob.Optional {
 				opt = " (optional)"
 			}
-			fmt.Printf("   %-10s %s%s%s  %s\n", ob.Status, ob.Name, opt, extra, ob.Goal)
+			where := ""
+			if r.ctx != nil {
+				base := ob.Name
+				if i := strings.Index(base, "/pre#"); i >= 0 {
+					base = base[:i]
+				}
+				if p, ok := r.ctx.sitePos[base]; ok {
+					where = " @" + p
+				}
+			}
+			fmt.Printf("   %-10s %s%s%s%s  %s\n", ob.Status, ob.Name, where, opt, extra, ob.Goal)
 		}
 		fmt.Printf("   %d/%d discharged\n", d, n)
 	}
